@@ -230,6 +230,10 @@ pub fn exec_inflate_proto(s: &Script, st: &mut Stats) -> Result<RunInfo, Violati
                 return viol("C13.unexpected_error", format!("call {}: {:?}", calls, e));
             }
         }
+        // 4'. ... and stream-end is reported as soon as that holds ("exactly when")
+        if valid && res.status != Ok(MZStatus::StreamEnd) && sink.len() == v.out.len() && consumed == stream_len {
+            return viol("C13.stream_end_when_complete", format!("call {} (flush {:?}, {} in, {} out): all {} plaintext bytes delivered and all {} stream bytes consumed, but the result is {:?}", calls, fl, inb.len(), ol, v.out.len(), stream_len, res.status));
+        }
         // 7. Finish with all of a truncated stream supplied => Err(Buf)
         if fl == MZFlush::Finish && s.c("trunc_of_valid") != 0 && delivered == n && inb.len() == res.bytes_consumed && !was_first {
             if !matches!(res.status, Err(MZError::Buf) | Ok(MZStatus::Ok)) {
